@@ -61,9 +61,10 @@ def run(prop, tier, seed):
         env["GORACE"] = "log_path=%s halt_on_error=0 history_size=2" % os.path.join(wd, "race.%d" % s)
         cmd = [binp, "-test.run", "^TestRaceProgs$", "-test.timeout", "%ds" % (600 if quick else 3000), "-rseed", str(seed * 100 + s), "-riters", str(iters)]
         procs.append(subprocess.Popen(cmd, cwd=wd, env=env, stdout=subprocess.PIPE, stderr=subprocess.STDOUT, text=True))
-    programs, done, samples, crashed = 0, 0, [], []
+    programs, done, samples, crashed, npanics = 0, 0, [], [], 0
     for p in procs:
         out, _ = p.communicate()
+        npanics += len(re.findall(r"RACEPROG-PANIC", out))
         progs = re.findall(r"RACEPROG (\S+) (\d+)", out)
         programs += len(progs)
         if "RACEPROGS-DONE" in out:
@@ -92,7 +93,7 @@ def run(prop, tier, seed):
                 "-race with perturbing hooks; programs differ in (type, seed) and are all concurrent, hence distinct and non-trivial; %d types" % len(TYPES),
         "samples": samples or [{"note": "none"}],
         "types": TYPES, "race_reports_total": total_blocks, "race_reports_in_library": len(reports), "distinct_library_signatures": len(bysig),
-        "shards_completed": done, "shards": shards,
+        "shards_completed": done, "shards": shards, "recovered_panics_in_client_goroutines": npanics,
     }
     notes = ["%d shards did not complete (crash/timeout); their reports were still parsed" % len(crashed)] if crashed else None
     return vlib.finish(prop, tier, seed, "exploration", cov, viol, t0,
